@@ -1,5 +1,6 @@
 import PytaskProofs.Lemmas.EngineSkip
 import PytaskProofs.Lemmas.EngineAll
+import PytaskProofs.Lemmas.EngineComplete
 /-!
 # C06 — skip markers and -k / -m selections decide exactly which tasks may run
 
@@ -179,6 +180,32 @@ theorem C06_all_reported (F : BodyFn) (P : Project) (cfg : Cfg) (w : World) (pic
   · exact (C06_select F P cfg w picks r g marks hd hb t ht hne).2.2 hp
   · exact (C06_skip F P cfg w picks r g marks hd hb a ha t hta).2.2 hp
 
+/-- **C06_all_reported_full.** The same for every complete build, failing ones included (exit code
+0 or 1): if the loop was not stopped early by the failure limit (the build reports fewer FAIL
+outcomes than `max_failures`) and was not aborted while recording states (every executed task has a
+report) — the two conditions read off the build's own result — then the scheduler ran dry: every
+collected task was handed out, every collected task has **exactly one** report (the reports are, in
+order, one per pick, and no task is picked twice), and the report of every task that is not eligible
+or lies in the closure of a user-skipped task is SKIP. -/
+theorem C06_all_reported_full (F : BodyFn) (P : Project) (cfg : Cfg) (w : World) (picks : List Nat) (r : Result)
+    (g : G) (marks : List Nat)
+    (hd : createDag P cfg = .ok (g, marks)) (hb : build F P cfg w picks = .ok r)
+    (hc : r.complete = true)
+    (hlim : ∀ m, cfg.maxFail = some m → countFail r.reports < m)
+    (hrep : ∀ u ∈ r.log, ∃ o, (u, o) ∈ r.reports)
+    (t : Nat) (ht : t ∈ P.tasks.map (·.id)) :
+    (r.reports.map (·.1)).count t = 1 ∧
+    ((¬ Eligible g cfg t ∨ ∃ a, UserSkipped P a ∧ (t = a ∨ t ∈ taskDesc g a)) →
+      (t, Outcome.skip) ∈ r.reports ∧ ∀ o, (t, o) ∈ r.reports → o = Outcome.skip) := by
+  obtain ⟨hall, hkeys, hnd⟩ := build_complete hd hb hc hlim hrep
+  have hp : t ∈ picks := hall t ht
+  refine ⟨by rw [hkeys]; exact nodup_count_one hnd hp, ?_⟩
+  rintro (hne | ⟨a, ha, hta⟩)
+  · obtain ⟨_, h2, h3⟩ := C06_select F P cfg w picks r g marks hd hb t ht hne
+    exact ⟨h3 hp, h2⟩
+  · obtain ⟨_, h2, h3⟩ := C06_skip F P cfg w picks r g marks hd hb a ha t hta
+    exact ⟨h3 hp, h2⟩
+
 /-! ## `after` declarations: the F1 face of C06
 
 `_modify_dag` routes `after=u` through the *products* of `u`. When `u` has a product, `u` is a
@@ -289,5 +316,14 @@ example : ∃ r, build c06F ⟨[{ id := 0, src := 90, deps := [], prods := [20],
       {} c06W [0, 1] = .ok r ∧ r.exit = exitCode "FAILED" ∧ r.reports = [(0, .fail), (1, .skip)] :=
   ⟨_, rfl, rfl, rfl⟩
 
-end Pytask
+/-- `C06_all_reported_full` on a failing build (exit 1, no failure limit): all four tasks have one
+report each, the skipped task's is SKIP. -/
+example : ∃ r, build c06F ⟨[{ id := 0, src := 90, deps := [], prods := [20], after := [], beh := .raisesEarly },
+                            { id := 1, src := 90, deps := [20], prods := [21], after := [] },
+                            { id := 2, src := 90, deps := [], prods := [22], after := [], skip := true },
+                            { id := 3, src := 90, deps := [], prods := [23], after := [] }]⟩
+      {} c06W [0, 3, 2, 1] = .ok r ∧ r.complete = true ∧ r.exit = exitCode "FAILED" ∧ countFail r.reports = 1 ∧
+      r.reports = [(0, .fail), (3, .success), (2, .skip), (1, .skipPrevFailed)] ∧ r.log = [0, 3] :=
+  ⟨_, rfl, rfl, rfl, rfl, rfl, rfl⟩
 
+end Pytask
